@@ -180,7 +180,7 @@ MsgClasses == {"trailing_bytes", "type_byte_only", "random_body"}
 (* ------------------------------------------------------------- stage machine *)
 KexFamilies == {"dh", "gex", "ecdh", "c25519"}
 Methods     == {"none", "password", "publickey", "kbdint"}          \* auth call made by a client victim
-Ciphers     == {"ctr-hmac", "ctr-etm", "cbc-hmac", "gcm"}
+Ciphers     == {"ctr-hmac", "ctr-etm", "cbc-hmac", "gcm"}        \* every CIPHERTEXT case is run once per suite
 
 VARIABLES role,      \* "client" | "server": the endpoint under test (the victim); fixed by Init
           stage,     \* what the victim is waiting for
@@ -286,20 +286,26 @@ InModel(r, k) ==
    the prediction the trace spec compares observations with).  "-" = no internal error expected:
    the message is tolerated (Message.get_* pads short reads with zero bytes) or rejected with SSHException *)
 RawClass(r, s, m, i, c) ==
-  IF i = 0 THEN
+  IF s = "gss_token" THEN "TypeError"          \* GssapiWithMicAuthHandler's table holds plain functions: handler(m) fails
+  ELSE IF m = "USERAUTH_REQUEST.gss_keyex" THEN "AttributeError"   \* no GSS context: falls through to None.ssh_check_mic
+  ELSE IF i = 0 THEN
        (IF c = "misplaced" /\ r = "server" /\ s \in {"secured", "service"} /\ m \in Responses
           THEN "IndexError"               \* _ensure_authed returns an empty Message -> send_message indexes [0]
-          ELSE "-")
+        ELSE IF c = "misplaced" /\ m = "NEWKEYS" /\ s \in {"secured", "service", "userauth", "authed"}
+          THEN "TypeError"                \* _parse_newkeys with K = None -> deflate_long(None)
+        ELSE "-")
   ELSE LET t == Fields(m)[i].t IN
     CASE t \in {"text", "namelist"} /\ c = "bad_utf8"          -> "UnicodeDecodeError"   \* Message.get_text
-      [] t = "line" /\ c \in {"not_utf8", "not_utf8_preamble"}  -> "-"                    \* readline errors are wrapped
       [] t = "ecpoint" /\ c \in {"garbage", "off_curve", "wrong_length", "infinity", "empty", "compressed",
                                  "trunc_inside", "len_beyond_end", "len_max", "len_over_pad", "wrong_type"}
                                                                -> "ValueError"           \* from_encoded_point
-      [] t = "x25519" /\ c \in {"garbage", "wrong_length", "empty", "trunc_inside", "len_beyond_end", "len_max",
-                                "len_over_pad", "wrong_type"}  -> "ValueError"           \* from_public_bytes
-      [] t = "hostkey" /\ c \in {"inner_bad_utf8", "inner_zero_numbers", "garbage"} -> "ValueError|UnicodeDecodeError"
-      [] t = "packet" /\ c \in {"flip_body", "flip_mac", "flip_length", "garbage"} -> "InvalidTag"  \* AES-GCM only
+      [] t = "x25519" /\ c \in {"wrong_length", "all_zero", "empty", "trunc_inside", "len_beyond_end", "len_max",
+                                "len_over_pad", "wrong_type"}  -> "ValueError"           \* from_public_bytes / exchange
+      [] t = "hostkey" /\ c \in {"inner_bad_utf8", "inner_zero_numbers", "inner_len_max"}
+                                                               -> "ValueError|UnicodeDecodeError"   \* PKey constructors
+      [] t = "frame" /\ c \in {"empty_payload", "len_small", "pad_exceeds_len"} -> "IndexError"  \* payload[0]
+      [] t = "packet" /\ c \in {"flip_body", "flip_mac", "flip_length", "garbage", "replay"}
+                                                               -> "InvalidTag"           \* AES-GCM suites only
       [] OTHER -> "-"
 
 AllowedClasses == {"SSHException", "EOFError", "OSError"}
@@ -352,7 +358,8 @@ TypeOK == /\ role \in Roles /\ stage \in Stages /\ fam \in KexFamilies \cup {"-"
 
 \* spec -> code: the grammar once, then one CASE per abstract case (= per post-injection state)
 Emit == /\ (stage = "banner" /\ role = (CHOOSE r \in Roles : TRUE)) =>
-             \A m \in AllMsgs : PrintT(<<"GRAMMAR", m, Types(m), Names(m)>>)
+             /\ \A m \in AllMsgs : PrintT(<<"GRAMMAR", m, Types(m), Names(m)>>)
+             /\ PrintT(<<"CIPHERS", Ciphers>>)
         /\ (inj # <<>>) =>
              PrintT(<<"CASE", role, inj.stage, inj.fam, inj.method, inj.msg, inj.idx, inj.class>>)
 =============================================================================
